@@ -408,16 +408,35 @@ func (hash *SexpHash) HashDelete(key Sexp) error {
 		return nil
 	}
 
-	hash.NumKeys--
 	for i, pair := range arr {
 		res, err := hash.Env.Compare(pair.Head, key)
 		if err == nil && res == 0 {
-			hash.Map[hashval] = append(arr[0:i], arr[i+1:]...)
+			// only now do we know the key is present: keep the
+			// count, the bucket and the insertion-order list in step.
+			rest := append(arr[0:i], arr[i+1:]...)
+			if len(rest) == 0 {
+				delete(hash.Map, hashval)
+			} else {
+				hash.Map[hashval] = rest
+			}
+			hash.NumKeys--
+			hash.removeFromKeyOrder(key)
 			break
 		}
 	}
 
 	return nil
+}
+
+// removeFromKeyOrder drops the entry for key from the insertion-order list.
+func (hash *SexpHash) removeFromKeyOrder(key Sexp) {
+	for j, k := range hash.KeyOrder {
+		res, err := hash.Env.Compare(k, key)
+		if err == nil && res == 0 {
+			hash.KeyOrder = append(hash.KeyOrder[:j], hash.KeyOrder[j+1:]...)
+			return
+		}
+	}
 }
 
 func HashCountKeys(hash *SexpHash) int {
